@@ -198,22 +198,24 @@ Definition exec_FixVariable (c : cmps) (j old_j : nat) (val obj lower upper : Q)
 Definition exec_FixBounds (j : nat) (status : vstat) (t : st) : st := set_cs t j status.
 
 (* RowSingletonPS *)
-Definition exec_RowSingleton (c : cmps) (i old_i j : nat) (lhs rhs obj : Q) (col : svec) (oldLo oldUp row_obj : Q) (t : st) : st :=
-  let t := fix_row_idx t i old_i in
-  let aij := sget col i in
-  let t := set_s t i (aij * gx t j) in
-  let val := obj - sdot_skip col i (sy t) in
+(* the outcomes: row basic, y_i = row_obj, r_j = val unless kept *)
+Definition rs_slack_basic (t : st) (i j : nat) (row_obj val : Q) (keep_r : bool) (cst : option vstat) : st :=
+  let t1 := set_y (set_rs t i BASIC) i row_obj in
+  let t2 := if keep_r then t1 else set_r t1 j val in
+  match cst with Some cs' => set_cs t2 j cs' | None => t2 end.
+(* x_j basic, row non-basic, y_i = val/aij, r_j = 0 *)
+Definition rs_col_basic (t : st) (i j : nat) (val aij : Q) (on_lhs : bool) : st :=
+  set_r (set_y (set_cs (set_rs t i (if on_lhs then ON_LOWER else ON_UPPER)) j BASIC) i (val / aij)) j 0.
+(* x_j was basic already *)
+Definition rs_both_basic (t : st) (i j : nat) (row_obj : Q) : st := set_r (set_y (set_rs t i BASIC) i row_obj) j 0.
+
+Definition rs_decide (c : cmps) (t : st) (i j : nat) (lhs rhs aij val oldLo oldUp row_obj : Q) : st :=
   let newLo := if Qltb' 0 aij then lhs / aij else rhs / aij in
   let newUp := if Qltb' 0 aij then rhs / aij else lhs / aij in
   let xj := gx t j in
   let rj := gr t j in
-  (* the three outcomes *)
-  let slack_basic (keep_r : bool) (cst : option vstat) :=       (* row basic, y = row_obj, r[j] = val unless kept *)
-      let t1 := set_y (set_rs t i BASIC) i row_obj in
-      let t2 := if keep_r then t1 else set_r t1 j val in
-      match cst with Some cs' => set_cs t2 j cs' | None => t2 end in
-  let col_basic (on_lhs : bool) :=                              (* x_j basic, row non-basic, y = val/aij, r[j] = 0 *)
-      set_r (set_y (set_cs (set_rs t i (if on_lhs then ON_LOWER else ON_UPPER)) j BASIC) i (val / aij)) j 0 in
+  let slack_basic := rs_slack_basic t i j row_obj val in
+  let col_basic := rs_col_basic t i j val aij in
   match gcs t j with
   | FIXED =>
       if Qleb newLo oldLo && Qleb oldUp newUp then slack_basic true None
@@ -230,7 +232,7 @@ Definition exec_RowSingleton (c : cmps) (i old_i j : nat) (lhs rhs obj : Q) (col
         if le_mf c rj then col_basic (eqrel_f c (lhs / aij) xj)
         else slack_basic false (Some ON_LOWER)
       else slack_basic true None
-  | BASIC => set_r (set_y (set_rs t i BASIC) i row_obj) j 0
+  | BASIC => rs_both_basic t i j row_obj
   | ON_LOWER =>
       if eqrel_f c oldLo xj then slack_basic false None
       else col_basic (eqrel_f c (lhs / aij) xj)
@@ -240,6 +242,13 @@ Definition exec_RowSingleton (c : cmps) (i old_i j : nat) (lhs rhs obj : Q) (col
   | ZERO => slack_basic false None
   | UNDEFINED => t
   end.
+
+Definition exec_RowSingleton (c : cmps) (i old_i j : nat) (lhs rhs obj : Q) (col : svec) (oldLo oldUp row_obj : Q) (t : st) : st :=
+  let t := fix_row_idx t i old_i in
+  let aij := sget col i in
+  let t := set_s t i (aij * gx t j) in
+  let val := obj - sdot_skip col i (sy t) in
+  rs_decide c t i j lhs rhs aij val oldLo oldUp row_obj.
 
 (* ForceConstraintPS.  Parallel arrays over the entries of m_row: objs, fixed, cols, oldLowers, oldUppers *)
 Record force_ent := { fe_idx : nat; fe_a : Q; fe_obj : Q; fe_fixed : bool; fe_col : svec; fe_lo : Q; fe_up : Q }.
